@@ -231,9 +231,17 @@ func runC20(e *Env) {
 				}
 				lower, upper = ps.EndAt, preReads[i].EndAt
 			}
-			// only messages that certainly passed (were stamped) before the timer fired bind the callback
-			if upper < fa && ev.At-lower < d {
-				e.Violate("full-idle-period", kind+"-idle,since-last-message", "%s-idle event at t=%v although a %s passed the handler at t=%v..%v, before the timer fired (t=%v); idle time %v", kind, ev.At, kind, lower, upper, fa, d)
+			// only messages that certainly passed (were stamped) before the timer fired - or, the timer having fired,
+			// before its callback began to run: the callback reads the stamp under the handler's lock - bind the callback
+			var upperSeq int64
+			if kind == "write" {
+				upperSeq = ps.End
+			} else {
+				upperSeq = preReads[i].End
+			}
+			beforeCallback := ev.Task >= 0 && ev.Task < len(tasks) && tasks[ev.Task].StartEv > 0 && upperSeq <= tasks[ev.Task].StartEv
+			if (upper < fa || beforeCallback) && ev.At-lower < d {
+				e.Violate("full-idle-period", kind+"-idle,since-last-message", "%s-idle event at t=%v although a %s passed the handler at t=%v..%v, before the timer callback (fired t=%v) began to run; idle time %v", kind, ev.At, kind, lower, upper, fa, d)
 			}
 		}
 		if inactiveEnd != 0 && ev.Seq > inactiveEnd {
